@@ -31,8 +31,81 @@ class HFlags(Plugin):
         ep = eng.top.pnames.get("errp")
         s.errp_root = ep["id"] if ep else None
         s.pinned = set()
-        # (count (0,1,2), first code, messages, value stored through errp, measured lengths {(pointer, length atom)}, inlined frames whose copy provably fits)
-        return (0, None, (), None, frozenset(), frozenset())
+        # ordering clause: the function's own size limits  (size parameter, scale, K)  and the operands that must not be touched while size > K is possible
+        fn = eng.top
+        s.limits = []
+        for i in fn.insts():
+            if i["op"] == "icmp" and i["pred"] in ("ugt", "uge") and i["ops"][1].get("k") == "c" and i["ops"][1]["v"] >= 64 and i["ops"][0].get("k") == "v":
+                a = i["ops"][0]["id"]
+                sc = 1
+                d = fn.defs.get(a)
+                if d is not None and d["op"] in ("mul", "shl") and d["ops"][0].get("k") == "v" and d["ops"][1].get("k") == "c":
+                    sc = d["ops"][1]["v"] if d["op"] == "mul" else 2 ** d["ops"][1]["v"]
+                    a = d["ops"][0]["id"]
+                if a in fn.params and fn.params[a]["name"] in s.BOS_OF and s.is_limit_check(fn, i) \
+                        and (a, sc, i["ops"][1]["v"]) not in s.limits:
+                    s.limits.append((a, sc, i["ops"][1]["v"]))
+        s.operand_roots = {p["id"]: p["name"] for p in fn.j["params"] if p["ty"].endswith("*") and p["name"] in ("dest", "src", "str")}
+        dp = fn.pnames.get("dest")
+        s.dest_param = dp["id"] if dp and dp["ty"].endswith("*") else None
+        s.bos = [p["id"] for p in fn.j["params"] if p["name"] in ("destbos", "srcbos", "strbos")] if s.limits else []
+        for (a, sc, K) in s.limits:
+            s.pinned.add(a)
+        s.pinned.update(s.bos)
+        # (count (0,1,2), first code, messages, value stored through errp, measured lengths {(pointer, length atom)}, inlined frames whose copy provably fits,
+        #  operands touched while the size limit was still open)
+        return (0, None, (), None, frozenset(), frozenset(), frozenset())
+
+    @staticmethod
+    def is_limit_check(fn, cmp):
+        """size > K is one of the function's RSIZE limit checks when satisfying it leads straight to a constraint report:
+        the compare feeds a branch whose taken side reports (handler call), directly or through a short-circuit '||' phi, or it selects the ESLEMAX code"""
+        def reports(bb, depth=4):
+            """every path from bb reaches a constraint report within a few blocks"""
+            if depth == 0:
+                return False
+            for i in fn.blocks[bb]["insts"]:
+                if i["op"] == "call" and (i.get("callee") or "").startswith(("invoke_safe_", "handle_error", "handle_werror", "handle_mem_error", "handle_str_bos_overflow")):
+                    return True
+            succ = fn.succ.get(bb, [])
+            return bool(succ) and all(reports(x, depth - 1) for x in succ)
+        for u in fn.users().get(cmp["id"], []):
+            if u["op"] == "br" and "f" in u and reports(u["t"]):
+                return True
+            if u["op"] == "select" and any(o.get("k") == "c" and o.get("v") == 403 for o in u["ops"][1:]):
+                return True
+            if u["op"] == "phi":
+                for w in fn.users().get(u["id"], []):
+                    if w["op"] == "br" and "f" in w and reports(w["t"]):
+                        return True
+        return False
+
+    BOS_OF = SIZE_PARAMS = ("dmax", "dlen", "len", "smax", "slen")
+    CLEARERS = ("handle_error", "handle_werror", "handle_mem_error", "handle_str_bos_overflow")
+
+    def touch(s, pl, p, fr, eng, st, how):
+        """ordering clause: dest/src must not be accessed while 'size above the limit' is still possible on this path"""
+        if not s.limits or p is None or p[0] != "p" or p[1] not in s.operand_roots or any(t[0] == s.operand_roots[p[1]] for t in pl[6]):
+            return pl
+        f = fr
+        while f is not None:
+            if f.fn.name in s.CLEARERS:
+                return pl            # clearing dest is part of rejecting
+            f = f.parent
+        env, facts, epoch = st
+        if s.dest_param is not None and eng.decide(("cmp", "eq", Lin.atom("&" + s.dest_param), Lin.const(0)), facts) is True:
+            return pl                # dest == NULL: length-query mode of the conversion functions, the size arguments describe no object
+        for (a, sc, K) in s.limits:
+            if s.top.params[a]["name"] in ("slen", "smax") and s.operand_roots[p[1]] == "dest":
+                continue             # a source length describes src: once dest/dmax are validated, measuring and clearing dest is part of rejecting it (C04)
+            size = Lin.atom(a).scale(sc)
+            if eng.decide(("cmp", "ugt", size, Lin.const(K)), facts) is False:
+                continue
+            if any(eng.decide(("cmp", "eq", Lin.atom(b), Lin.const((1 << 64) - 1)), facts) is False
+                   and eng.decide(("cmp", "ule", size, Lin.atom(b)), facts) is True for b in s.bos):
+                continue             # bounded by a known object size: the library accepts size <= object size there (recorded root cause, not this clause)
+            return pl[:6] + (pl[6] | {(s.operand_roots[p[1]], how, pl[2])},)
+        return pl
 
     def no_inline(s, fn):
         return fn.name in s.noinline or not s.may_report(fn)
@@ -70,6 +143,10 @@ class HFlags(Plugin):
     def on_event(s, pl, ev, eng, st):
         if ev[0] == "store" and s.errp_root and ev[1][0] == "p" and ev[1][1] == s.errp_root:
             return pl[:3] + (eng.as_lin(ev[2]),) + pl[4:]
+        if ev[0] == "load":
+            return s.touch(pl, ev[1], ev[3], eng, st, "read")
+        if ev[0] == "store":
+            return s.touch(pl, ev[1], ev[4], eng, st, "write")
         if ev[0] == "enter" and s.assume_quiet and ev[1].name in s.assume_quiet and "PROVE-FIT" in s.assume_quiet[ev[1].name]:
             # copy(dest, dmax, src): the nested 'not enough space' constraint cannot fire if a measured strlen(src) is known to be < dmax here
             args = ev[2]
@@ -78,7 +155,7 @@ class HFlags(Plugin):
                 for (pv, la) in pl[4]:
                     if pv == args[2] and eng.decide(("cmp", "ult", Lin.atom(la), args[1][1]), facts) is True:
                         site = "%s@%s:%s/" % (ev[1].name, ev[3]["_bb"], ev[3]["_k"])
-                        return pl[:5] + (pl[5] | {ev[4].pre + site},)
+                        return pl[:5] + (pl[5] | {ev[4].pre + site},) + pl[6:]
             return pl
         if ev[0] == "handler":
             rest = pl[3:]
@@ -109,6 +186,12 @@ class HFlags(Plugin):
         return pl
 
     def on_call(s, pl, call, eng, st):
+        if call[0] == "ext" and s.limits:
+            eff = call[2]
+            touched = {x[0] for x in eff.get("w", ())} | {x[0] for x in eff.get("r", ())}
+            for k_, a in enumerate(call[3]):
+                if k_ in touched:
+                    pl = s.touch(pl, a, call[5], eng, st, "passed to %s" % call[1])
         if call[0] == "ext" and call[1] in ("strlen", "wcslen") and call[6] and call[3]:
             s.pinned.add(call[6])
             lens = frozenset(list(pl[4])[-3:]) | {(call[3][0], call[6])}
